@@ -562,13 +562,49 @@ RUNTIME_PANIC_ALLOW = {
 }
 
 
+def helper_roots(util):
+    """Private (non-pub) functions of lexgen_util reachable from the specified methods and
+    constructors: helper name -> set of specified methods that (transitively) call it. Their code is
+    part of those methods' behaviour (segx inlines them), so rules attribute it to the callers."""
+    spec = {"Lexer::" + m for m in METHODS + CTORS}
+    calls = {}
+    for b in util.bodies:
+        name = norm_path(b["path"])
+        cs = set()
+        for bb in b["mir"]["blocks"]:
+            t = bb["term"]
+            if t["k"] == "call":
+                c = norm_path(t.get("resp") or t["f"].get("path"))
+                if c and util.body(c) is not None:
+                    cs.add(c)
+        calls[name] = cs
+    roots = {}
+    for m in spec:
+        seen = set()
+        work = list(calls.get(m, ()))
+        while work:
+            x = work.pop()
+            if x in seen or x in spec:
+                continue
+            b = util.body(x)
+            if b is None or b["from_expansion"] or "Public" in (b.get("vis") or ""):
+                continue
+            seen.add(x)
+            roots.setdefault(x, set()).add(m)
+            work.extend(calls.get(x, ()))
+    return roots
+
+
 def check_rpanic_runtime(ctx, prog, rsum):
     util = prog.crate("lexgen_util")
     n = 0
+    helpers = helper_roots(util)
     for b in util.bodies:
         if b["from_expansion"]:
             continue  # derives (Debug/Clone/PartialEq)
         name = norm_path(b["path"])
+        if name in helpers:
+            continue  # interpreted as part of its callers (its sites appear in their summaries)
         sites = list(may_panic_sites(prog, util, b))
         short = name.split("::")[-1]
         if short in rsum:
